@@ -861,6 +861,16 @@ def sim_case(seed, tier):
         script.append({"t": rng.choice([0.5, 2.0]), "side": "client", "op": "ping", "uid": 1})
     if rng.random() < 0.2:
         script.append({"t": rng.choice([1.0, 3.0]), "side": rng.choice(["client", "server"]), "op": "key_update"})
+    # application PINGs (and with them other ack-eliciting control frames) queued while the window is full and nothing
+    # is acknowledged: they ride on the probe datagram of the next timeout, which must stay the only one beyond the window
+    r3 = random.Random("c08b-pings/%d" % seed)
+    if r3.random() < 0.5:
+        times = [0.2, 0.6, 1.1, 2.0, 4.1]
+        for bo in fp.get("blackouts", []):
+            times += [bo[0] + 0.01, bo[0] + 0.15, (bo[0] + bo[1]) / 2]
+        for i in range(r3.choice([1, 2, 4])):
+            script.append({"t": round(r3.choice(times) + r3.random() * 0.05, 4), "side": r3.choice(["client", "server"]), "op": "ping", "uid": 10 + i})
+        script.sort(key=lambda o: o["t"])
     # the client starts over after a Retry / Version Negotiation packet from the server's front-end: the packets of
     # its first attempt must leave the in-flight accounting
     r2 = random.Random("c08b-frontend/%d" % seed).random()
